@@ -5,8 +5,13 @@ returns ..."), so a result that can depend on the *history of earlier calls* bre
 way such a dependence can enter these functions is module-level (or class-level / function-
 attribute) mutable state.  The rule walks the anchored functions and their resolved package callees
 and reports every read of a module-level mutable binding, except the one sound idiom: a memo table
-that is only ever indexed by a key made of ALL parameters of the function (then a hit returns what
-a miss would compute).  Writes that are never read back into a result are not reported.
+that is only ever indexed by one key expression made of parameters, where either the key names ALL
+parameters or every value stored under a key depends (data and control dependence through locals,
+`param_deps`) on the key's parameters only - then a hit returns what a miss would compute.  The
+same holds for a mutable *default argument* that the body updates (created once, shared by all
+calls).  Also state: a module-level one-shot iterator (zip/map/filter/iter/generator expression -
+iterating consumes it) and a module-level container updated through a local alias (`cur = TABLE`,
+`cur[k] = v`).  Writes that are never read back into a result are not reported.
 """
 import ast
 
